@@ -20,8 +20,7 @@ import sys
 
 from harness import framework, tlc, c18
 
-KNOWN = {"SplitSelfLoop": "C18:graph:SplitSelfLoop", "HistCopySlice": "C18:graph:HistCopySlice",
-         "EmptyOldEdge": "C18:graph:EmptyOldEdge"}
+KNOWN = dict((k, "C18:graph:" + k) for k in ("SplitSelfLoop", "HistCopySlice", "EmptyOldEdge", "AnonSplitEdge", "CutPathSwallow"))
 
 
 def validate(ctx, traces, tag, kind):
@@ -127,11 +126,13 @@ def generators(quick):
         return [("CfgGen_unit_quick.cfg", "unit", c18.G_DELAY + c18.G_FIXED + c18.G_VAR[:2], "one", None, 1),
                 ("CfgGen_var_quick.cfg", "var", c18.G_VAR, "one", None, 1),
                 ("CfgGen_links_quick.cfg", "links", allh, "one", None, 1),
-                ("CfgSim.cfg", "sim", c18.G_DELAY + c18.G_VAR, "one", "num=1200", 1)]
+                ("CfgSim.cfg", "sim", c18.G_VAR, "one", "num=60", 1),
+                ("CfgSimD.cfg", "simd", c18.G_DELAY, "one", "num=60", 1)]
     return [("CfgGen_unit.cfg", "unit", c18.G_DELAY + c18.G_FIXED + c18.G_VAR[:2], "all", None, 1),
             ("CfgGen_var.cfg", "var", c18.G_VAR, "all", None, 1),
             ("CfgGen_links.cfg", "links", allh, "one", None, 1),
-            ("CfgSim.cfg", "sim", c18.G_DELAY + c18.G_VAR, "one", "num=40000", 1)]
+            ("CfgSim.cfg", "sim", c18.G_VAR, "one", "num=1500", 1),
+            ("CfgSimD.cfg", "simd", c18.G_DELAY, "one", "num=1500", 1)]
 
 
 def sweep_jobs(ctx, quick):
@@ -164,6 +165,10 @@ def run(ctx):
     ctx.assume("two delayed branches in a row make 'plus its delay slot' ambiguous: block ends there are drift only")
     ctx.assume("edges between blocks are added with graph.add_edge(link(x, y)) between vertices mapped in the support, as an analysis does")
     mcfgs = M_QUICK if quick else M_THOROUGH
+    rejects = REJECT
+    if os.environ.get("C18_SKIP_MODEL"):    # development aid (mutation runs): the design checks do not touch amoco
+        mcfgs, rejects = [], []
+        ctx.note("development_run_without_model_checks", True)
     gens = generators(quick)
     wd = tlc.workdir("c18g")
     # Python drivers first (fork before any thread exists)
@@ -175,14 +180,14 @@ def run(ctx):
     def tlc_job(job):
         kind, cfg, arg = job
         if kind == "M":
-            return tlc.run("Cfg", cfg, coverage=(cfg == "CfgMC_quick2.cfg"), tag="c18m_" + cfg[:-4], timeout=3400, workers=big)
+            return tlc.run("Cfg", cfg, tag="c18m_" + cfg[:-4], timeout=3400, workers=big, xmx="6g")
         if kind == "R":
-            return tlc.run("Cfg", cfg, tag="c18r_" + cfg[:-4], timeout=3400, expect_violation=True, workers=1)
+            return tlc.run("Cfg", cfg, tag="c18r_" + cfg[:-4], timeout=3400, expect_violation=True, workers=1, xmx="1g")
         tag, sim = arg
         return tlc.run("Cfg", cfg, simulate=sim, depth=30 if sim else None, seed=ctx.seed if sim else None,
-                       spool=os.path.join(wd, tag + ".spool"), tag="c18g_" + tag, timeout=3400, workers=big)
+                       spool=os.path.join(wd, tag + ".spool"), tag="c18g_" + tag, timeout=3400, workers=big, xmx="4g")
 
-    jobs = [("M", c, None) for c in mcfgs] + [("G", g[0], (g[1], g[4])) for g in gens] + [("R", c, None) for c, _ in REJECT]
+    jobs = [("M", c, None) for c in mcfgs] + [("G", g[0], (g[1], g[4])) for g in gens] + [("R", c, None) for c, _ in rejects]
     with mp.pool.ThreadPool(len(jobs)) as tp:
         res = tp.map(tlc_job, jobs)
     for (kind, cfg, arg), r in zip(jobs, res):
@@ -190,7 +195,7 @@ def run(ctx):
             continue
         ctx.add_tlc(r, kind + ":" + cfg)
     rejected = {}
-    for (cfg, exp), r in zip(REJECT, res[len(mcfgs) + len(gens):]):
+    for (cfg, exp), r in zip(rejects, res[len(mcfgs) + len(gens):]):
         if not r.violation or exp not in r.violation:
             raise tlc.MachineryError("self-test: %s did not violate %s (got %s)" % (cfg, exp, r.violation))
         rejected[cfg] = r.violation
